@@ -6,6 +6,7 @@
 //   verif-harness stmt    CASES      line = hex(source)          (public `statement` entry point)
 //   verif-harness compile CASES      line = FLAGS \t MAIN \t PATH=hex(src) \t PATH=hex(src) ...
 //                                    FLAGS: comma list of std|nostd, require=<hex>, render, tree
+//   verif-harness compileb CASES     like compile; an error line is `ERR bytes=<n written before the error> <errors>`
 //   verif-harness phases  CASES      like compile; prints Debug dumps of vars/resolved/ordered/ir/usage (hex)
 //   verif-harness tree    CASES      like compile; prints the parsed modules (sylt_parser::tree) as S-expressions with spans
 //   verif-harness treef   CASES      like tree, full detail: spans are @file_id:line_start:line_end:col_start:col_end,
@@ -226,6 +227,35 @@ fn compile_once(c: &CompileCase) -> Result<Vec<u8>, Vec<Error>> {
     Ok(buf)
 }
 
+/// Like `compile`, but an error line also reports how many bytes had been written to the output
+/// when the error was returned: `ERR bytes=<n> <errors...>` (C03: no Lua is produced on rejection).
+fn compile_bytes_line(c: &CompileCase) -> String {
+    let mut buf: Vec<u8> = Vec::new();
+    let r = std::panic::catch_unwind(std::panic::AssertUnwindSafe(|| -> Result<(), Vec<Error>> {
+        let files = &c.files;
+        let reader = |p: &Path| -> Result<String, Error> {
+            files.get(p).cloned().ok_or_else(|| Error::FileNotFound(p.to_path_buf()))
+        };
+        let tree = sylt_parser::tree(Path::new(&c.main), reader, c.std)?;
+        sylt_compiler::compile(&mut buf, tree, c.require.as_ref())
+    }));
+    match r {
+        Err(p) => format!("PANIC {}", hex(panic_message(p).as_bytes())),
+        Ok(Ok(())) => format!("OK {}", hex(&buf)),
+        Ok(Err(errs)) => {
+            let mut out = format!("ERR bytes={}", buf.len());
+            if errs.is_empty() {
+                out.push_str(" EMPTY");
+            }
+            for e in errs.iter() {
+                out.push(' ');
+                out.push_str(&error_line(e));
+            }
+            out
+        }
+    }
+}
+
 fn compile_line(c: &CompileCase) -> String {
     let r = std::panic::catch_unwind(std::panic::AssertUnwindSafe(|| compile_once(c)));
     match r {
@@ -402,6 +432,7 @@ fn main() {
                         }
                     }
                     "compile" => compile_line(&parse_compile_case(line)),
+                    "compileb" => compile_bytes_line(&parse_compile_case(line)),
                     "phases" => phases_line(&parse_compile_case(line)),
                     "tree" => tree_line(&parse_compile_case(line)),
                     "treef" => tree_line_mode(&parse_compile_case(line), true),
